@@ -119,6 +119,14 @@ class MarshalRoles:
                             if isinstance(s, ast.Assign) and isinstance(s.targets[0], ast.Name) \
                                     and isinstance(s.value, ast.Constant) and s.value.value is True:
                                 flags.add(s.targets[0].id)
-        if len(flags) != 1:
+        # ... or the look-ahead variable itself is the marker: `byte = next(it, None)` at every pull (None = source exhausted)
+        sentinel = [n for n in nx if len(n.value.args) == 2 and isinstance(n.value.args[1], ast.Constant) and n.value.args[1].value is None
+                    and not n.value.keywords]
+        self.sentinel = False
+        if not flags and sentinel and len(sentinel) == len(nx):
+            self.sentinel = True
+            self.depleted_var = None
+            return
+        if len(flags) != 1 or sentinel:
             raise AnalysisError("role `depleted flag` not found in the pump")
         self.depleted_var = flags.pop()
